@@ -8,26 +8,82 @@
                 console ioCores over one EncoderConfig, fed a sequence of full entries (any field
                 tree, any With-chain prefix); every sink call is observed WITH the bytes it was
                 handed: what the surviving cores receive after a failure is the entry, intact.
+   In kinds 1 and 2 a leaf's sink may stand behind zap's WriteSyncer combinators (zapcore.Lock, AddSync,
+   NewMultiWriteSyncer, zap.CombineWriteSyncers, zap.Open, BufferedWriteSyncer); the last component of the
+   observation is 1 when every logging call returned (0: one panicked, 2: one did not return - blocked).
    No proofs in this file. *)
 From Coq Require Import List ZArith Bool.
 From Coq.Strings Require Import Byte.
 Import ListNotations.
 From Zap Require Import Base.Wire Enc.Bytes Enc.Fields Enc.JsonEnc Enc.JsonParse Enc.WireEnc Enc.JsonAst Enc.Wf Enc.Parse3 Enc.Console C02.Model.
 
-(* ---------------- sinks and cores ---------------- *)
+(* ---------------- sinks, WriteSyncer combinators and cores ---------------- *)
 (* one sink call outcome for one entry: Write's error (the count is ignored by ioCore.Write),
    and Sync's error *)
 Record outcome1 := { werr : option bytes; serr : option bytes }.
+(* the WriteSyncer an ioCore was given: a (recording) sink, or one of zap's combinators over others *)
+Inductive wsy :=
+| WSink (id : Z) (outs : list outcome1)      (* the sink itself; outcome for the k-th entry *)
+| WPass (w : wsy)                            (* zapcore.Lock (and AddSync of a WriteSyncer): lock; forward; unlock *)
+| WNoSync (w : wsy)                          (* zapcore.AddSync of a plain io.Writer: Write forwarded, Sync a no-op *)
+| WMulti (l : list wsy)                      (* zapcore.NewMultiWriteSyncer; zap.CombineWriteSyncers and zap.Open are
+                                                WPass (WMulti _) *)
+| WBuf (w : wsy).                            (* &zapcore.BufferedWriteSyncer{WS: w, Size: 1}: every line (2 bytes or
+                                                more) bypasses the buffer; bufio.Writer keeps its first error *)
 Inductive score :=
-| SLeaf (id : Z) (con : bool) (outs : list outcome1)
-                                             (* an ioCore over sink id with its own encoder (con: console,
-                                                otherwise JSON); outcome for the k-th entry *)
+| SLeaf (con : bool) (w : wsy)               (* an ioCore over WriteSyncer w with its own encoder (con: console,
+                                                otherwise JSON) *)
 | STee (l : list score)                      (* zapcore.NewTee *)
 | SWrap (c : score).                         (* a wrapper forwarding Write to the wrapped core (hooked core) *)
 (* a sink call: Write with the bytes handed to it, or Sync *)
 Inductive ev := EvW (id : Z) (p : bytes) | EvS (id : Z).
 
 Definition out_at (outs : list outcome1) (k : nat) : outcome1 := nth k outs {| werr := None; serr := None |}.
+Definition raw_err (outs : list outcome1) (k : nat) : list bytes :=
+  match werr (out_at outs k) with Some m => [m] | None => [] end.
+Definition nonnil {A} (l : list A) : bool := negb (is_nil l).
+
+(* WriteSyncer.Write for entry number k (the entries 0..k-1 were written before it).
+   The error returned, as the list of the parts of the multierr:
+   lockedWriteSyncer.Write: Lock; n, err := ws.Write(bs); Unlock; return n, err.
+   writerWrapper: the embedded Write.
+   multiWriteSyncer.Write: every syncer is written, the errors appended.
+   BufferedWriteSyncer.Write (buffer of one byte, so empty; lines longer than that): bufio.Writer.Write
+   hands the line to the underlying writer unless an earlier write failed; it keeps the first error
+   it saw and from then on returns it without calling the underlying writer. *)
+Fixpoint ws_errs (k : nat) (w : wsy) {struct w} : list bytes :=
+  match w with
+  | WSink _ outs => raw_err outs k
+  | WPass w => ws_errs k w
+  | WNoSync w => ws_errs k w
+  | WMulti l => (fix go (l : list wsy) : list bytes := match l with [] => [] | x :: r => ws_errs k x ++ go r end) l
+  | WBuf w => match find (fun j => nonnil (ws_errs j w)) (seq 0 k) with
+              | Some j => ws_errs j w
+              | None => ws_errs k w
+              end
+  end.
+(* the sink calls that Write makes, with the bytes p *)
+Fixpoint ws_writes (p : bytes) (k : nat) (w : wsy) {struct w} : list ev :=
+  match w with
+  | WSink id _ => [EvW id p]
+  | WPass w => ws_writes p k w
+  | WNoSync w => ws_writes p k w
+  | WMulti l => (fix go (l : list wsy) : list ev := match l with [] => [] | x :: r => ws_writes p k x ++ go r end) l
+  | WBuf w => match find (fun j => nonnil (ws_errs j w)) (seq 0 k) with
+              | Some _ => []
+              | None => ws_writes p k w
+              end
+  end.
+(* WriteSyncer.Sync: lockedWriteSyncer and multiWriteSyncer forward it, writerWrapper does nothing,
+   BufferedWriteSyncer flushes (nothing is buffered) and syncs the underlying WriteSyncer *)
+Fixpoint ws_syncs (w : wsy) {struct w} : list ev :=
+  match w with
+  | WSink id _ => [EvS id]
+  | WPass w => ws_syncs w
+  | WNoSync _ => []
+  | WMulti l => (fix go (l : list wsy) : list ev := match l with [] => [] | x :: r => ws_syncs x ++ go r end) l
+  | WBuf w => ws_syncs w
+  end.
 
 (* Core.Write for entry number k; hi = the entry's level is above Error; line con = what an encoder
    of that kind (with this core's accumulated context) produces for the entry.
@@ -36,10 +92,10 @@ Definition out_at (outs : list outcome1) (k : nat) : outcome1 := nth k outs {| w
    multiCore.Write: every core, errors appended.  Returns sink events and the errors in order. *)
 Fixpoint core_write (line : bool -> bytes) (hi : bool) (k : nat) (c : score) {struct c} : list ev * list bytes :=
   match c with
-  | SLeaf id con outs =>
-      match werr (out_at outs k) with
-      | Some m => ([EvW id (line con)], [m])
-      | None => (EvW id (line con) :: (if hi then [EvS id] else []), [])
+  | SLeaf con w =>
+      match ws_errs k w with
+      | [] => (ws_writes (line con) k w ++ (if hi then ws_syncs w else []), [])
+      | errs => (ws_writes (line con) k w, errs)
       end
   | STee l =>
       (fix go (l : list score) : list ev * list bytes :=
@@ -55,34 +111,73 @@ Fixpoint core_write (line : bool -> bytes) (hi : bool) (k : nat) (c : score) {st
    reported in ONE line on the error output, then the call returns *)
 Fixpoint accepted (c : score) {struct c} : list score :=
   match c with
-  | SLeaf _ _ _ => [c]
+  | SLeaf _ _ => [c]
   | STee l => (fix go (l : list score) : list score := match l with [] => [] | x :: r => accepted x ++ go r end) l
   | SWrap _ => [c]
   end.
 Definition entry_write (line : bool -> bytes) (hi : bool) (k : nat) (c : score) : list ev * list bytes :=
   fold_left (fun acc x => let '(e, m) := core_write line hi k x in (fst acc ++ e, snd acc ++ m)) (accepted c) ([], []).
 
-(* the property's reading, written independently: every sink of the tree, in order *)
-Record lf := { l_id : Z; l_con : bool; l_outs : list outcome1 }.
+(* the property's reading, written independently: every sink of the tree, in order, each with what
+   stands between it and its core.
+   s_sync: a Sync of the core reaches the sink (no AddSync-of-a-Writer above it);
+   s_guard: the outcome lists of all the sinks behind the OUTERMOST BufferedWriteSyncer above the sink
+   (None: the sink is not buffered) *)
+Record sk := { s_id : Z; s_outs : list outcome1; s_sync : bool; s_guard : option (list (list outcome1)) }.
+Fixpoint ws_outs (w : wsy) {struct w} : list (list outcome1) :=
+  match w with
+  | WSink _ outs => [outs]
+  | WPass w => ws_outs w
+  | WNoSync w => ws_outs w
+  | WMulti l => (fix go (l : list wsy) := match l with [] => [] | x :: r => ws_outs x ++ go r end) l
+  | WBuf w => ws_outs w
+  end.
+Fixpoint ws_sinks (g : option (list (list outcome1))) (sync : bool) (w : wsy) {struct w} : list sk :=
+  match w with
+  | WSink id outs => [{| s_id := id; s_outs := outs; s_sync := sync; s_guard := g |}]
+  | WPass w => ws_sinks g sync w
+  | WNoSync w => ws_sinks g false w
+  | WMulti l => (fix go (l : list wsy) := match l with [] => [] | x :: r => ws_sinks g sync x ++ go r end) l
+  | WBuf w => ws_sinks (match g with Some _ => g | None => Some (ws_outs w) end) sync w
+  end.
+Record lf := { l_con : bool; l_sinks : list sk }.
 Fixpoint leaves (c : score) {struct c} : list lf :=
   match c with
-  | SLeaf id con outs => [{| l_id := id; l_con := con; l_outs := outs |}]
+  | SLeaf con w => [{| l_con := con; l_sinks := ws_sinks None true w |}]
   | STee l => (fix go (l : list score) := match l with [] => [] | x :: r => leaves x ++ go r end) l
   | SWrap c => leaves c
   end.
+(* a buffered sink stops being written once a write behind its buffer has failed: from the first
+   round j in which one of the guarded sinks failed, the buffer answers every later write with the
+   errors of round j (they are reported again), and the sinks behind it are not called any more.
+   The failure of a sink that is NOT behind a buffer has no effect on any later round. *)
+Definition fails_at (g : list (list outcome1)) (j : nat) : bool :=
+  existsb (fun outs => match werr (out_at outs j) with Some _ => true | None => false end) g.
+Definition frozen (s : sk) (k : nat) : option nat :=
+  match s_guard s with Some g => find (fails_at g) (seq 0 k) | None => None end.
+Definition sk_reached (k : nat) (s : sk) : bool := match frozen s k with Some _ => false | None => true end.
+Definition sk_errs (k : nat) (s : sk) : list bytes :=
+  raw_err (s_outs s) (match frozen s k with Some j => j | None => k end).
+Definition leaf_errs (k : nat) (l : lf) : list bytes := flat_map (sk_errs k) (l_sinks l).
+(* the shape of the sink calls of one entry: a Write per reached sink, carrying the line of the
+   core's encoder, then - when every write of this core succeeded and hi - a Sync per sink that a
+   Sync reaches *)
+Inductive xev := XW (id : Z) (con : bool) | XS (id : Z).
+Definition leaf_shape (hi : bool) (k : nat) (l : lf) : list xev :=
+  flat_map (fun s => if sk_reached k s then [XW (s_id s) (l_con l)] else []) (l_sinks l) ++
+  (if is_nil (leaf_errs k l) && hi then flat_map (fun s => if s_sync s then [XS (s_id s)] else []) (l_sinks l) else []).
+Definition spec_shape (hi : bool) (k : nat) (c : score) : list xev := flat_map (leaf_shape hi k) (leaves c).
+Definition xev_ev (line : bool -> bytes) (x : xev) : ev := match x with XW id con => EvW id (line con) | XS id => EvS id end.
 (* every sink is written once, in order, with the line of its own encoder for THIS entry - whatever
    failed before - and synced after a successful write when hi *)
 Definition spec_events (line : bool -> bytes) (hi : bool) (k : nat) (c : score) : list ev :=
-  flat_map (fun l => match werr (out_at (l_outs l) k) with
-                     | Some _ => [EvW (l_id l) (line (l_con l))]
-                     | None => EvW (l_id l) (line (l_con l)) :: (if hi then [EvS (l_id l)] else [])
-                     end) (leaves c).
-Definition spec_write_errs (k : nat) (c : score) : list bytes :=
-  flat_map (fun l => match werr (out_at (l_outs l) k) with Some m => [m] | None => [] end) (leaves c).
+  map (xev_ev line) (spec_shape hi k c).
+Definition spec_write_errs (k : nat) (c : score) : list bytes := flat_map (leaf_errs k) (leaves c).
 (* sync failures of sinks that were synced: the statement asks for these to be reported too *)
 Definition spec_sync_errs (hi : bool) (k : nat) (c : score) : list bytes :=
-  if hi then flat_map (fun l => match werr (out_at (l_outs l) k), serr (out_at (l_outs l) k) with
-                                | None, Some m => [m] | _, _ => [] end) (leaves c)
+  if hi then flat_map (fun l => if is_nil (leaf_errs k l)
+                                then flat_map (fun s => if s_sync s then match serr (out_at (s_outs s) k) with Some m => [m] | None => [] end else []) (l_sinks l)
+                                else []) (leaves c)
   else [].
 
 (* ---------------- the entries the sinks receive ---------------- *)
@@ -124,18 +219,38 @@ Definition run_seq (c : cfg) (ctxs : list (list fld)) (t : score) (es : list pen
 
 (* ---------------- wire ---------------- *)
 Definition dec_out (s : sx) : outcome1 := {| werr := dec_optb (sx_nth s 0); serr := dec_optb (sx_nth s 1) |}.
+(* a WriteSyncer: (0 id outs) a sink | (1 w) zapcore.Lock | (2 w) zapcore.AddSync of a plain io.Writer |
+   (3 (w ...)) zapcore.NewMultiWriteSyncer | (4 (w ...)) zap.CombineWriteSyncers | (5 (w ...)) zap.Open of
+   registered sinks | (6 w) BufferedWriteSyncer{Size: 1} | (7 w) zapcore.AddSync of a WriteSyncer *)
+Fixpoint dec_wsy (fuel : nat) (s : sx) : wsy :=
+  match fuel with
+  | O => WMulti []
+  | S f =>
+      match sx_z (sx_nth s 0) with
+      | 0%Z => WSink (sx_z (sx_nth s 1)) (map dec_out (sx_l (sx_nth s 2)))
+      | 1%Z => WPass (dec_wsy f (sx_nth s 1))
+      | 2%Z => WNoSync (dec_wsy f (sx_nth s 1))
+      | 3%Z => WMulti (map (dec_wsy f) (sx_l (sx_nth s 1)))
+      | 4%Z => WPass (WMulti (map (dec_wsy f) (sx_l (sx_nth s 1))))
+      | 5%Z => WPass (WMulti (map (dec_wsy f) (sx_l (sx_nth s 1))))
+      | 6%Z => WBuf (dec_wsy f (sx_nth s 1))
+      | _ => WPass (dec_wsy f (sx_nth s 1))
+      end
+  end.
 Fixpoint dec_score (fuel : nat) (s : sx) : score :=
   match fuel with
   | O => STee []
   | S f =>
       match sx_z (sx_nth s 0) with
-      | 0%Z => SLeaf (sx_z (sx_nth s 1)) (sx_bool (sx_nth s 3)) (map dec_out (sx_l (sx_nth s 2)))
+      | 0%Z => SLeaf (sx_bool (sx_nth s 3)) (WSink (sx_z (sx_nth s 1)) (map dec_out (sx_l (sx_nth s 2))))
       | 1%Z => STee (map (dec_score f) (sx_l (sx_nth s 1)))
+      | 3%Z => SLeaf (sx_bool (sx_nth s 1)) (dec_wsy f (sx_nth s 3))
       | _ => SWrap (dec_score f (sx_nth s 1))
       end
   end.
-(* a leaf is (0 id outs) in kind 1 and (0 id outs console? nests?) in kind 2; "nests" (the test sink
-   logs through an unrelated core during Write) is environment the code must be indifferent to: ignored.
+(* a leaf over a bare sink is (0 id outs) in kind 1 and (0 id outs console? nests?) in kind 2; a leaf over
+   combinators is (3 console? nests? writesyncer) in both; "nests" (the test sinks log through an unrelated
+   core during Write) is environment the code must be indifferent to: ignored.
    kind 1 does not observe the bytes; kind 2 does *)
 Definition enc_ev (e : ev) : sx := match e with EvW id _ => SL [SZ 0; SZ id] | EvS id => SL [SZ 1; SZ id] end.
 Definition enc_evp (e : ev) : sx := match e with EvW id p => SL [SZ 0; SZ id; SB p] | EvS id => SL [SZ 1; SZ id] end.
@@ -174,33 +289,23 @@ Definition enc_row (r : list ev * list bytes) : sx :=
   SL [SL (map enc_evp (fst r)); SL (map SB (snd r)); SZ (if is_nil (snd r) then 0 else 1)].
 Definition model_seq (i : sx) : sx :=
   SL [SL (map enc_row (run_seq (seq_cfg i) (seq_ctxs i) (seq_tree i) (seq_ents i))); SZ 1].
-(* the observed sink calls of one entry against the sinks of the tree, in order: one Write per sink
-   whose bytes are the entry (ok), then a Sync iff the write succeeded and hi; nothing else *)
-Fixpoint match_events (ok : bool -> bytes -> bool) (hi : bool) (k : nat) (ls : list lf) (evs : list sx) {struct ls} : bool :=
-  match ls with
-  | [] => is_nil evs
-  | l :: r =>
-      match evs with
-      | [] => false
-      | e :: evs' =>
-          Z.eqb (sx_z (sx_nth e 0)) 0 && Z.eqb (sx_z (sx_nth e 1)) (l_id l) &&
-          (match sx_nth e 2 with SB p => ok (l_con l) p | _ => false end) &&
-          (match werr (out_at (l_outs l) k), hi with
-           | None, true =>
-               match evs' with
-               | [] => false
-               | s :: evs'' => sx_eqb s (SL [SZ 1; SZ (l_id l)]) && match_events ok hi k r evs''
-               end
-           | _, _ => match_events ok hi k r evs'
-           end)
-      end
+(* the observed sink calls of one entry against the shape the property asks for: one Write per
+   reached sink whose bytes are the entry (ok), in order, the Syncs where they belong; nothing else *)
+Fixpoint match_shape (ok : bool -> bytes -> bool) (xs : list xev) (evs : list sx) {struct xs} : bool :=
+  match xs, evs with
+  | [], [] => true
+  | XW id con :: xs', e :: evs' =>
+      Z.eqb (sx_z (sx_nth e 0)) 0 && Z.eqb (sx_z (sx_nth e 1)) id &&
+      (match sx_nth e 2 with SB p => ok con p | _ => false end) && match_shape ok xs' evs'
+  | XS id :: xs', e :: evs' => sx_eqb e (SL [SZ 1; SZ id]) && match_shape ok xs' evs'
+  | _, _ => false
   end.
 Fixpoint match_rows (c : cfg) (ctxs : list (list fld)) (t : score) (k : nat) (es : list pent) (rows : list sx) {struct es} : bool :=
   match es, rows with
   | [], [] => true
   | e :: es', row :: rows' =>
       (let errs := spec_write_errs k t ++ spec_sync_errs (p_hi e) k t in
-       match_events (payload_ok c (firstn (p_d e) ctxs) (p_ent e) (p_fs e)) (p_hi e) k (leaves t) (sx_l (sx_nth row 0)) &&
+       match_shape (payload_ok c (firstn (p_d e) ctxs) (p_ent e) (p_fs e)) (spec_shape (p_hi e) k t) (sx_l (sx_nth row 0)) &&
        sx_eqb (sx_nth row 1) (SL (map SB errs)) &&
        sx_eqb (sx_nth row 2) (SZ (if is_nil errs then 0 else 1))) &&
       match_rows c ctxs t (S k) es' rows'
